@@ -95,7 +95,7 @@ def parse_table(reply):
 
 
 def canon_impl(impl):
-    return {k: [(w["start"], w["stop"], w["date"], w["rate_num"]) for w in ws] for k, ws in impl.items()}
+    return {k: [(w["start"], w["stop"], w.get("date"), w["rate_num"]) for w in ws] for k, ws in impl.items()}
 
 
 # ----------------------------------------------------------------------------------------------
@@ -126,6 +126,42 @@ def expected_keys(case):
     return {(r[0], r[1], r[2]) for r in recs if r[2] >= 0}
 
 
+def expected_rows(case):
+    """the survey rows every group must extrapolate, computed from the table alone (not from anything
+    the code produced): the group's reports in table order, in component mode a zero row for every
+    date on which the site has a component report but this component has none, a zero row on the
+    start date and one on the end date, in date order (equal dates keep this order)"""
+    (mode, f, S, E, scale, recs) = case
+    rel = recs if mode == 0 else [r for r in recs if r[2] >= 0]
+    out = {}
+    for r in rel:
+        key = (r[0], -1, -1) if mode == 0 else (r[0], r[1], r[2])
+        out.setdefault(key, []).append((r[3], r[4]))
+    for key, own in out.items():
+        rows = list(own)
+        if mode == 1:
+            have = {d for d, _ in own}
+            site_dates = []
+            for r in rel:
+                if r[0] == key[0] and r[3] not in have and r[3] not in site_dates:
+                    site_dates.append(r[3])
+            rows += [(d, 0) for d in site_dates]
+        rows += [(S, 0), (E, 0)]
+        out[key] = sorted(rows, key=lambda x: x[0])  # stable
+    return out
+
+
+def attach_dates(case, impl, exp_rows=None):
+    """the report of measurement mode does not say which survey a window belongs to; when the adapter
+    could not read it from the code either, the table itself says it (same number of rows, same rates)"""
+    exp_rows = expected_rows(case) if exp_rows is None else exp_rows
+    for key, ws in impl.items():
+        if key in exp_rows and len(ws) == len(exp_rows[key]) and any("date" not in w for w in ws) \
+                and [w["rate_num"] for w in ws] == [r for _, r in exp_rows[key]]:
+            for w, (d, _) in zip(ws, exp_rows[key]):
+                w.setdefault("date", d)
+
+
 def oracle_table(ctx, case, impl, origin="table", exact=False, check_cover=True):
     """evaluate the clauses of C13 on the windows the real code produced; returns #violations.
     `exact`: the factor is dyadic (double arithmetic exact), so the share must be exactly floor(g f)
@@ -146,7 +182,20 @@ def oracle_table(ctx, case, impl, origin="table", exact=False, check_cover=True)
         ctx.violate(f"C13:coverage:{mname}:unexpected-group",
                     "estimation windows for a site/component without a (component level) report",
                     dict(inp, unexpected=sorted(unexpected)))
+    exp_rows = expected_rows(case) if check_cover else {}
+    if check_cover:
+        attach_dates(case, impl, exp_rows)
     for key, ws in sorted(impl.items()):
+        if key in exp_rows:
+            got = [(w.get("date", d), w["rate_num"]) for w, (d, _) in zip(ws, exp_rows[key])] \
+                if len(ws) == len(exp_rows[key]) else None
+            if got != exp_rows[key]:
+                ctx.violate(f"C13:rows:{mname}:windows-not-attached-to-the-survey-rows",
+                            "the windows of a group do not carry, in date order, the group's own reports "
+                            "(plus zero rows on the start date, the end date and, in component mode, the "
+                            "site's other survey dates)",
+                            dict(inp, group=list(key), expected=[list(x) for x in exp_rows[key]][:30],
+                                 got=[[w.get("date"), w["rate_num"]] for w in ws][:30]))
         for kind in tiling_kinds(S, E, ws):
             ctx.violate(f"C13:tiling:{mname}:{kind}",
                         f"{mname} mode: the windows of a group do not partition [start date, end date): {kind}",
@@ -232,13 +281,52 @@ def exhaustive_small_tables(fs):
             yield (0, f, S, E, SCALE, recs)
 
 
-def random_table(rng, f, big=False):
+def _dn(y, m, d):
+    import datetime as _dt
+    return (_dt.date(y, m, d) - W.EPOCH).days
+
+
+# calendar boundaries put into periods and survey dates on purpose: Dec 31 / Jan 1 (leap and
+# non-leap years, day-of-year 365 / 366), Feb 28 / 29 / Mar 1, month ends
+BOUNDARY_DAYS = sorted({_dn(y, m, d) for y in (2019, 2020, 2021, 2023, 2024)
+                        for (m, d) in ((1, 1), (1, 2), (2, 28), (3, 1), (6, 30), (7, 1), (12, 30), (12, 31))}
+                       | {_dn(2020, 2, 29), _dn(2024, 2, 29)})
+
+
+def boundary_period(rng):
+    """(S, E): 1- and 2-day periods, calendar years, periods straddling New Year / Feb 29, periods that
+    neither start on Jan 1 nor end on Dec 31, whole leap years"""
+    kind = rng.randrange(8)
+    y = rng.choice([2019, 2020, 2021, 2023, 2024])
+    if kind == 0:
+        S = rng.choice(BOUNDARY_DAYS)
+        return S, S                      # one simulated day
+    if kind == 1:
+        S = rng.choice(BOUNDARY_DAYS)
+        return S, S + 1                  # two simulated days (Dec 31 -> Jan 1, Feb 28 -> Feb 29/Mar 1 ...)
+    if kind == 2:
+        return _dn(y, 1, 1), _dn(y, 12, 31)
+    if kind == 3:
+        return _dn(y, 12, rng.randint(20, 31)), _dn(y + 1, 1, rng.randint(1, 15))
+    if kind == 4:
+        return _dn(y, 2, rng.randint(20, 28)), _dn(y, 3, rng.randint(1, 10))
+    if kind == 5:
+        return _dn(y, rng.randint(2, 11), rng.randint(2, 27)), _dn(y + 1, rng.randint(2, 11), rng.randint(2, 27))
+    if kind == 6:
+        return _dn(y, 7, 1), _dn(y + 1, 6, 30)
+    return _dn(y, 1, 1), _dn(y + 2, 12, 31)
+
+
+def random_table(rng, f, big=False, boundary=False):
     mode = rng.choice([0, 1, 1])
     S = rng.randint(6000, 9000)
-    L = rng.choice([1, 2, 3, 5, 10, 30, 31, 365, rng.randint(1, 60), rng.randint(1, 800)])
+    L = rng.choice([0, 1, 2, 3, 5, 10, 30, 31, 365, rng.randint(1, 60), rng.randint(1, 800)])
     if big:
         L = rng.randint(100, 4000)
     E = S + L
+    if boundary:
+        S, E = boundary_period(rng)
+    special = [d for d in BOUNDARY_DAYS if S <= d <= E] if boundary else []
     recs = []
     nsites = rng.randint(1, 5 if not big else 12)
     for site in rng.sample(range(1, 40), nsites):
@@ -252,6 +340,8 @@ def random_table(rng, f, big=False):
                 days.append(E)
             elif r < 0.4 and days:
                 days.append(rng.choice(days))  # repeated date (two methods on one day)
+            elif r < 0.75 and special:
+                days.append(rng.choice(special))
             else:
                 days.append(rng.randint(S, E))
         comps = [(e, c) for e in range(1, rng.randint(1, 3) + 1) for c in range(1, rng.randint(1, 3) + 1)]
@@ -304,15 +394,17 @@ def run_tables(ctx, cases, exact, origin, style_rng):
     """implementation + oracle on every table; for `exact` tables additionally the model diff"""
     drv = core.LeanDriver("drv_window")
     impls = []
-    for case in cases:
-        style = style_rng.choice(["str", "int"])
+    for ci0, case in enumerate(cases):
+        style = pick_style(style_rng, case)
         try:
-            impl = W.impl_report(case, style)
+            impl = W.impl_report(case, style, audit=(ci0 % 7 == 0))
+            attach_dates(case, impl)
+            ctx.count(f"tables_with_{style}_names")
         except Exception as e:  # a crash of the real code on a valid table
             ctx.violate(f"C13:crash:{MODE_NAME[case[0]]}:{type(e).__name__}",
                         f"the report function raised {type(e).__name__}: {e}",
                         {"case": [case[0], case[1], case[2], case[3], case[4], [list(r) for r in case[5]]],
-                         "origin": origin})
+                         "origin": origin, "style": style})
             impl = None
         impls.append(impl)
     lines = []
@@ -373,7 +465,7 @@ def run_tables(ctx, cases, exact, origin, style_rng):
                 ctx.nontrivial.add(sig)
             if len(ws) > 2:
                 ctx.count("groups_with_surveys")
-            if any(a["date"] == b["date"] for a, b in zip(ws, ws[1:])):
+            if any(a.get("date") is not None and a.get("date") == b.get("date") for a, b in zip(ws, ws[1:])):
                 ctx.count("groups_with_equal_dates")
     return impls
 
@@ -670,9 +762,77 @@ def wholerun_stage(ctx):
     corpus = wholerun_corpus()
     ctx.count("wholerun_corpus_configs", len(corpus))
     cfgs = corpus + wholerun_configs(ctx, ctx.pick(2, 10))
-    with cf.ThreadPoolExecutor(max_workers=min(6, len(cfgs))) as ex:
-        results = list(ex.map(lambda c: WR.run_config(c, debug=True, trace=True), cfgs))
+    # LESSONS 4: the same configuration through the process pool (2 processes; in the thorough tier 5
+    # simulations x 3-4 programs = more tasks than 4 x processes, two simulations per worker) with the
+    # programs listed in reverse order: every program's estimation files must be the ones of the
+    # sequential (debug) run
+    n_mode = ctx.pick(1, 2)
+    mode_cfgs = []
+    for _ in range(n_mode):
+        mode = ctx.rng.choice(["measurement-based", "component-based"])
+        mode_cfgs.append(WR.make_config(ctx.rng, duration_method=mode, duration_factor=ctx.rng.choice(WR_FACTORS),
+                                        n_sims=ctx.pick(2, 5), ndays=ctx.pick(90, 120), n_sites=ctx.rng.randint(3, 5)))
+
+    def snapshot(res):
+        return {(p, s): (res.estimated(p, s), res.estimated_to_remove(p, s)) for p in res.programs for s in range(res.n_sims)}
+
+    def mode_job(cfg):
+        """one generated scenario (inputs and generator folder kept) three times: sequential, pool,
+        pool with the programs listed in reverse order"""
+        import tempfile
+        import shutil
+        wd = tempfile.mkdtemp(prefix="ldarverif_c13mode_")
+        try:
+            out = []
+            rev = dict(cfg)
+            rev["programs"] = list(reversed(cfg["programs"]))
+            variants = ((cfg, True, 1), (cfg, False, 2), (rev, False, 2)) if not ctx.quick else ((cfg, True, 1), None, (rev, False, 2))
+            for v in variants:
+                if v is None:
+                    out.append(None)
+                    continue
+                (c, dbg, procs) = v
+                r = WR.run_config(c, debug=dbg, processes=procs, trace=False, workdir=wd, keep_inputs=True)
+                out.append((r.rc, r.log[-1500:], snapshot(r) if r.rc == 0 else None))
+            return out
+        finally:
+            shutil.rmtree(wd, ignore_errors=True)
+
+    with cf.ThreadPoolExecutor(max_workers=min(6, len(cfgs) + len(mode_cfgs))) as ex:
+        mode_futs = [ex.submit(mode_job, m) for m in mode_cfgs]
+        allres = list(ex.map(lambda c: WR.run_config(c, debug=True, trace=True), cfgs))
+        mode_out = [f.result() for f in mode_futs]
+    results = allres
     try:
+        for mcfg, runs in zip(mode_cfgs, mode_out):
+            (rc0, log0, snap0) = runs[0]
+            if rc0 != 0:
+                sig = crash_signature(log0)
+                if sig:
+                    ctx.violate(sig, "the simulator crashed inside the estimation code: " + log0.strip().splitlines()[-1][:200],
+                                {"cfg": mcfg, "log_tail": log0})
+                else:
+                    ctx.note("mode configuration crashed outside the estimation code (not judged by C13)")
+                continue
+            ctx.count("wholerun_mode_configs")
+            for name, run in (("pool", runs[1]), ("pool-programs-reversed", runs[2])):
+                if run is None:
+                    continue
+                (rc, log, snap) = run
+                if rc != 0:
+                    ctx.violate(crash_signature(log) or "C13:mode:pool-run-crashes-where-the-sequential-run-does-not",
+                                f"the {name} run crashed, the sequential run of the same scenario did not: "
+                                + log.strip().splitlines()[-1][:200], {"cfg": mcfg, "mode": name, "log_tail": log})
+                    continue
+                for key in sorted(snap0):
+                    ctx.count("wholerun_mode_program_sims_compared")
+                    ctx.evaluations += 1
+                    if snap.get(key) != snap0[key]:
+                        ctx.violate("C13:mode:estimation-files-differ-between-sequential-and-pool-run",
+                                    f"program {key[0]} simulation {key[1]}: the estimated emissions files of the {name} "
+                                    "run differ from the sequential run of the same scenario",
+                                    {"cfg": mcfg, "mode": name, "program": key[0], "sim": key[1]})
+                        break
         for res in results:
             if res.rc != 0:
                 ctx.count("wholerun_config_crashed")
@@ -701,8 +861,192 @@ def wholerun_stage(ctx):
                                                                  for r in rows[:4]]})
                     break
     finally:
-        for res in results:
+        for res in allres:
             res.cleanup()
+
+
+# ----------------------------------------------------------------------------------------------
+# LESSONS 1: history independence;  2: calendar;  7: robustness
+# ----------------------------------------------------------------------------------------------
+def pick_style(rng, case):
+    """naming style of the ids; the pool of awkward names is finite"""
+    ok = all(r[0] < len(W.WEIRD_SITES) and r[1] < len(W.WEIRD_EQG) and r[2] < len(W.WEIRD_COMP) for r in case[5])
+    return rng.choice(["str", "int", "weird"] if ok else ["str", "int"])
+
+
+def drain_adapter_issues(ctx):
+    """unexpected code shapes / history effects noticed by the adapter become broken obligations"""
+    for msg in sorted(set(W.SHAPE_ISSUES)):
+        ctx.broke("adapter: unexpected shape of the report code", msg)
+    del W.SHAPE_ISSUES[:]
+    for (msg, case) in W.HISTORY_ISSUES[:5]:
+        ctx.violate("C13:history:" + msg.split()[0] + "-" + msg.split()[1], msg,
+                    {"case": [case[0], case[1], case[2], case[3], case[4], [list(r) for r in case[5]]], "origin": "audit"})
+    del W.HISTORY_ISSUES[:]
+
+
+def effects_audit(ctx):
+    """table of module-level state in the two modules the model covers: any module-level mutable
+    container, cache decorator, `global` statement, mutable default argument or attribute stored on
+    a function/module is a place where one report could influence the next.  The model has no such
+    state, so every entry is a broken obligation (the history stage then searches a failing input)."""
+    import ast
+    import os
+    from harness import shim
+    found = []
+    base = os.path.join(shim.REPO_SRC, "file_processing", "output_processing")
+    for fn in ("program_output.py", "program_output_helpers.py"):
+        try:
+            tree = ast.parse(open(os.path.join(base, fn)).read())
+        except Exception as e:
+            ctx.broke(f"effects audit: {fn} unreadable", str(e))
+            continue
+        mutable = (ast.List, ast.Dict, ast.Set, ast.ListComp, ast.DictComp, ast.SetComp, ast.Call)
+        for node in tree.body:
+            if isinstance(node, (ast.Assign, ast.AnnAssign, ast.AugAssign)):
+                val = node.value
+                if val is not None and isinstance(val, mutable):
+                    found.append(f"{fn}:{node.lineno} module-level {type(val).__name__}")
+        for node in ast.walk(tree):
+            if isinstance(node, (ast.Global, ast.Nonlocal)):
+                found.append(f"{fn}:{node.lineno} {type(node).__name__.lower()} statement")
+            if isinstance(node, (ast.FunctionDef, ast.AsyncFunctionDef)):
+                for d in node.decorator_list:
+                    if "cache" in ast.unparse(d):
+                        found.append(f"{fn}:{node.lineno} cache decorator on {node.name}")
+                for d in list(node.args.defaults) + [k for k in node.args.kw_defaults if k is not None]:
+                    if isinstance(d, mutable):
+                        found.append(f"{fn}:{node.lineno} mutable default argument of {node.name}")
+            if isinstance(node, ast.ClassDef):
+                found.append(f"{fn}:{node.lineno} class {node.name} (the model knows no class here)")
+    ctx.extra["module_level_state_in_modelled_modules"] = found
+    ctx.obligations.append("effects:no-module-level-state-in-program_output(_helpers)")
+    if found:
+        ctx.broke("effects:no-module-level-state-in-program_output(_helpers)", "\n".join(found))
+    else:
+        ctx.discharged.append("effects:no-module-level-state-in-program_output(_helpers)")
+
+
+def history_pairs(rng, n):
+    """pairs (A, B) of tables with COLLIDING keys and differing content: same site / equipment /
+    component ids, B with other dates, rates, period and factor"""
+    pairs = []
+    for i in range(n):
+        a = random_table(rng, dyadic_factor(rng), boundary=(i % 2 == 0))
+        (mode, f, S, E, scale, recs) = a
+        if not recs:
+            continue
+        kind = i % 3
+        if kind == 0:    # same ids and period, other rates and dates
+            recs_b = [(r[0], r[1], r[2], rng.randint(S, E), rng.choice(RATE_POOL)) for r in recs]
+            b = (mode, f, S, E, scale, recs_b)
+        elif kind == 1:  # same ids, period moved and resized, other factor
+            sh = rng.choice([1, -1, 365, 366, 17])
+            S2, E2 = S + sh, E + sh + rng.choice([0, 1, 5])
+            recs_b = [(r[0], r[1], r[2], min(max(r[3] + sh, S2), E2), r[4]) for r in recs]
+            b = (mode, dyadic_factor(rng), S2, E2, scale, recs_b)
+        else:            # same ids, other mode
+            b = (1 - mode, f, S, E, scale, recs)
+        pairs.append((a, b))
+    return pairs
+
+
+def history_stage(ctx):
+    """consecutive cases in one process, both orders, against the same case run alone in a fresh
+    process and against the model (which has no cross-case state)"""
+    import concurrent.futures as cf
+    rng = ctx.rng
+    pairs = history_pairs(rng, ctx.pick(6, 40))
+    style = rng.choice(["str", "int", "weird"])  # random_table ids stay inside the name pools
+
+    def js(c):
+        return [c[0], c[1], c[2], c[3], c[4], [list(r) for r in c[5]]]
+
+    A = [js(a) for a, _ in pairs]
+    B = [js(b) for _, b in pairs]
+    inter = [x for ab in zip(A, B) for x in ab]          # A1 B1 A2 B2 ...
+    inter_rev = [x for ab in zip(B, A) for x in ab]      # B1 A1 B2 A2 ...
+    jobs = {"alone_A": A[:3], "alone_B": B[:3], "AB": inter, "BA": inter_rev}
+    try:
+        with cf.ThreadPoolExecutor(max_workers=4) as ex:
+            futs = {k: ex.submit(W.run_cases_fresh, v, style) for k, v in jobs.items()}
+            # truly alone: one fresh process per case for the first pair
+            solo = [ex.submit(W.run_cases_fresh, [c], style) for c in (A[0], B[0])]
+            res = {k: f.result() for k, f in futs.items()}
+            solo = [f.result()[0] for f in solo]
+    except Exception as e:
+        ctx.broke("history stage: fresh-process runs", str(e)[-600:])
+        return
+    ab_A, ab_B = res["AB"][0::2], res["AB"][1::2]
+    ba_B, ba_A = res["BA"][0::2], res["BA"][1::2]
+    # this process: A, B, A again (after everything the earlier stages did in this process)
+    here = []
+    for (a, b) in pairs:
+        ra1 = W.report_to_json(W.impl_report(a, style))
+        rb = W.report_to_json(W.impl_report(b, style))
+        ra2 = W.report_to_json(W.impl_report(a, style))
+        here.append((ra1, rb, ra2))
+    for i, (a, b) in enumerate(pairs):
+        variants_a = {"after B (fresh process)": ba_A[i], "before B (fresh process)": ab_A[i],
+                      "in the check's process": here[i][0], "again after B in the check's process": here[i][2]}
+        variants_b = {"after A (fresh process)": ab_B[i], "before A (fresh process)": ba_B[i],
+                      "in the check's process": here[i][1]}
+        if i == 0:
+            variants_a["alone (own process)"] = solo[0]
+            variants_b["alone (own process)"] = solo[1]
+        if i < 3:
+            variants_a["first cases of a process"] = res["alone_A"][i]
+            variants_b["first cases of a process"] = res["alone_B"][i]
+        for (case, other, variants) in ((a, b, variants_a), (b, a, variants_b)):
+            ctx.evaluations += len(variants)
+            ref_name, ref = next(iter(variants.items()))
+            for name, v in variants.items():
+                if v != ref:
+                    ctx.violate(f"C13:history:{MODE_NAME[case[0]]}:result-depends-on-earlier-reports",
+                                f"the same table gives different windows {name} than {ref_name}",
+                                {"case": js(case), "before": [js(other)], "style": style, "origin": "history",
+                                 "differs": name, "reference": ref_name})
+                    break
+        ctx.count("history_pairs")
+    # every variant is also judged by the oracle / model through the normal table path
+    run_tables(ctx, [a for a, _ in pairs] + [b for _, b in pairs], exact=True, origin="history", style_rng=rng)
+
+
+def year_shift_stage(ctx):
+    """a period and its reports moved by exactly one year (same length): the windows must move with
+    it.  Calendars are read by Python's date arithmetic, not by the code's Timestamp subtraction."""
+    import datetime as _dt
+    rng = ctx.rng
+    n = ctx.pick(30, 700)
+    cases = [random_table(rng, float_factor(rng) if i % 2 else dyadic_factor(rng), boundary=(i % 3 != 0)) for i in range(n)]
+    for case in cases:
+        (mode, f, S, E, scale, recs) = case
+        d0 = W.day2date(S)
+        try:
+            d1 = d0.replace(year=d0.year + 1)
+        except ValueError:          # Feb 29
+            d1 = _dt.date(d0.year + 1, 3, 1)
+        sh = (d1 - d0).days          # 365 or 366
+        shifted = (mode, f, S + sh, E + sh, scale, [(r[0], r[1], r[2], r[3] + sh, r[4]) for r in recs])
+        try:
+            r0 = W.impl_report(case)
+            r1 = W.impl_report(shifted)
+        except Exception as e:
+            ctx.violate(f"C13:crash:{MODE_NAME[mode]}:{type(e).__name__}", f"the report function raised {type(e).__name__}: {e}",
+                        {"case": [mode, f, S, E, scale, [list(r) for r in recs]], "origin": "year_shift"})
+            continue
+        ctx.evaluations += 1
+        rel0 = {k: [(w["start"] - S, w["stop"] - S, w["rate_num"], w["vol"]) for w in ws] for k, ws in r0.items()}
+        rel1 = {k: [(w["start"] - S - sh, w["stop"] - S - sh, w["rate_num"], w["vol"]) for w in ws] for k, ws in r1.items()}
+        if rel0 != rel1:
+            ctx.violate(f"C13:calendar:{MODE_NAME[mode]}:windows-change-when-the-period-moves-by-one-year",
+                        f"the same reports {sh} days later give other windows relative to the start date",
+                        {"case": [mode, f, S + sh, E + sh, scale, [list(r) for r in shifted[5]]], "origin": "year_shift",
+                         "unshifted_case": [mode, f, S, E, scale, [list(r) for r in recs]]})
+        oracle_table(ctx, shifted, r1, origin="year_shift")
+        ctx.count("year_shift_pairs")
+        if d0.year % 4 == 0 or d1.year % 4 == 0:
+            ctx.count("year_shift_pairs_touching_a_leap_year")
 
 
 def _stage(ctx, name, t0):
@@ -729,71 +1073,104 @@ def run(ctx):
     t = _stage(ctx, "lean_build_and_audit", t)
     check_constant(ctx)
     rng = ctx.rng
+    state = {"t": t}
 
-    # corpus first
-    run_tables(ctx, CORPUS, exact=False, origin="corpus", style_rng=rng)
-    run_tables(ctx, CORPUS_EXACT, exact=True, origin="corpus_exact", style_rng=rng)
-    repeated_site_in_tf(ctx)
-    ctx.sample({"table_case(mode,f,S,E,scale,recs)": list(CORPUS[0][:5]) + [[list(r) for r in CORPUS[0][5]]],
-                "impl_windows": canon_impl(W.impl_report(CORPUS[0]))[(1, -1, -1)]})
+    def guarded(name, fn):
+        """LESSONS 7: an unexpected shape / crash inside a stage is a broken obligation and the
+        search for a failing input goes on with the next stage (never exit 2, never a silent skip)"""
+        import traceback
+        try:
+            fn()
+        except core.InfraError:
+            raise
+        except Exception:
+            ctx.broke(f"stage {name} raised", traceback.format_exc())
+        drain_adapter_issues(ctx)
+        state["t"] = _stage(ctx, name, state["t"])
 
-    t = _stage(ctx, "corpus", t)
-    # float confrontation: the grid of the property statement, completely
+    def st_corpus():
+        run_tables(ctx, CORPUS, exact=False, origin="corpus", style_rng=rng)
+        run_tables(ctx, CORPUS_EXACT, exact=True, origin="corpus_exact", style_rng=rng)
+        repeated_site_in_tf(ctx)
+        ctx.sample({"table_case(mode,f,S,E,scale,recs)": list(CORPUS[0][:5]) + [[list(r) for r in CORPUS[0][5]]],
+                    "impl_windows": canon_impl(W.impl_report(CORPUS[0]))[(1, -1, -1)]})
+
     grid = [k / 1000 for k in range(1001)]
-    failing = confront(ctx, grid, "grid")
-    report_failing(ctx, failing, "grid")
-    ctx.exhaustive = False  # the grid is enumerated completely; the property's domain (all reals) is not
-    t = _stage(ctx, "float_grid", t)
-    sub = grid if not ctx.quick else sorted(rng.sample(grid, 120) + [0.7, 0.8])
-    scalar_crosscheck(ctx, sub)
-    dy = [k / 1024 for k in range(1025)]
-    exact_grid(ctx, dy if not ctx.quick else sorted(set(dy[::16] + rng.sample(dy, 60))))
-    t = _stage(ctx, "scalar_crosscheck_and_dyadic_grid", t)
-    nrand = ctx.pick(300, 12000)
-    rand = list(dict.fromkeys(NASTY + [rng.random() for _ in range(nrand)]
-                              + [math.nextafter(k / 1000, rng.choice([0.0, 1.0])) for k in rng.sample(range(1, 1000), ctx.pick(40, 600))]))
-    rand = [f for f in rand if f not in set(grid) and 0.0 <= f <= 1.0]
-    failing = confront(ctx, rand, "random_doubles")
-    report_failing(ctx, failing, "random_doubles")
-    ctx.sample({"float_triple": {"f": 0.7, "gap": 10, "orderings": "both"},
-                "helpers(endT,endF,startT,startF)": [int(x[10]) for x in W.helper_offsets(0.7, 0, 20)[1:]]})
 
-    t = _stage(ctx, "random_doubles", t)
-    # whole tables, exact factors: model vs implementation
-    fs8 = [k / 8 for k in range(9)]
-    core_fs = fs8 if not ctx.quick else sorted(rng.sample(fs8, 3) + [0.5])
-    cases = list(exhaustive_small_tables(core_fs))
-    run_tables(ctx, cases, exact=True, origin="exhaustive_small", style_rng=rng)
-    n_rand = ctx.pick(240, 3800)
-    cases = [random_table(rng, dyadic_factor(rng), big=(i % 25 == 0)) for i in range(n_rand)]
-    for j in range(0, len(cases), 500):
-        run_tables(ctx, cases[j:j + 500], exact=True, origin="random_exact", style_rng=rng)
-    for c in cases[:2]:
-        ctx.sample({"table_case": [c[0], c[1], c[2], c[3], c[4], [list(r) for r in c[5]][:8]]})
+    def st_grid():
+        # float confrontation: the grid of the property statement, completely
+        failing = confront(ctx, grid, "grid")
+        report_failing(ctx, failing, "grid")
+        ctx.exhaustive = False  # the grid is enumerated completely; the property's domain (all reals) is not
 
-    t = _stage(ctx, "tables_exact", t)
-    # whole tables, arbitrary doubles: oracle on the implementation
-    cases = [random_table(rng, float_factor(rng), big=(i % 25 == 0)) for i in range(n_rand)]
-    for j in range(0, len(cases), 500):
-        run_tables(ctx, cases[j:j + 500], exact=False, origin="random_float", style_rng=rng)
+    def st_cross():
+        sub = grid if not ctx.quick else sorted(rng.sample(grid, 120) + [0.7, 0.8])
+        scalar_crosscheck(ctx, sub)
+        dy = [k / 1024 for k in range(1025)]
+        exact_grid(ctx, dy if not ctx.quick else sorted(set(dy[::16] + rng.sample(dy, 60))))
 
-    t = _stage(ctx, "tables_float", t)
-    # whole path through the output manager down to the CSV file
-    for i in range(ctx.pick(12, 150)):
-        case = random_table(rng, float_factor(rng) if i % 2 else dyadic_factor(rng))
-        style = rng.choice(["str", "int"])
-        direct = W.impl_report(case, style)
-        viacsv = W.manager_report(case, style)
-        a = {k: [(w["start"], w["stop"], w["rate_num"], w["vol"]) for w in ws] for k, ws in direct.items()}
-        b = {k: [(w["start"], w["stop"], w["rate_num"], w["vol"]) for w in ws] for k, ws in viacsv.items()}
-        if a != b:
-            ctx.disagree("manager-csv", table_line(case), a, b)
-        oracle_table(ctx, case, viacsv, origin="manager_csv")
-        ctx.traces += 1
-        ctx.evaluations += 1
-    t = _stage(ctx, "manager_csv", t)
-    wholerun_stage(ctx)
-    t = _stage(ctx, "wholerun", t)
+    def st_random_doubles():
+        nrand = ctx.pick(300, 12000)
+        rand = list(dict.fromkeys(NASTY + [rng.random() for _ in range(nrand)]
+                                  + [math.nextafter(k / 1000, rng.choice([0.0, 1.0])) for k in rng.sample(range(1, 1000), ctx.pick(40, 600))]))
+        rand = [f for f in rand if f not in set(grid) and 0.0 <= f <= 1.0]
+        failing = confront(ctx, rand, "random_doubles")
+        report_failing(ctx, failing, "random_doubles")
+        ctx.sample({"float_triple": {"f": 0.7, "gap": 10, "orderings": "both"},
+                    "helpers(endT,endF,startT,startF)": [int(x[10]) for x in W.helper_offsets(0.7, 0, 20)[1:]]})
+
+    n_rand = ctx.pick(130, 2800)
+
+    def st_tables_exact():
+        # whole tables, exact factors: model vs implementation
+        fs8 = [k / 8 for k in range(9)]
+        core_fs = fs8 if not ctx.quick else sorted(rng.sample(fs8, 3) + [0.5])
+        cases = list(exhaustive_small_tables(core_fs))
+        run_tables(ctx, cases, exact=True, origin="exhaustive_small", style_rng=rng)
+        cases = [random_table(rng, dyadic_factor(rng), big=(i % 25 == 0), boundary=(i % 3 == 1)) for i in range(n_rand)]
+        for j in range(0, len(cases), 500):
+            run_tables(ctx, cases[j:j + 500], exact=True, origin="random_exact", style_rng=rng)
+        for c in cases[:2]:
+            ctx.sample({"table_case": [c[0], c[1], c[2], c[3], c[4], [list(r) for r in c[5]][:8]]})
+
+    def st_tables_float():
+        # whole tables, arbitrary doubles: oracle on the implementation
+        cases = [random_table(rng, float_factor(rng), big=(i % 25 == 0), boundary=(i % 3 == 1)) for i in range(n_rand)]
+        for j in range(0, len(cases), 500):
+            run_tables(ctx, cases[j:j + 500], exact=False, origin="random_float", style_rng=rng)
+
+    def st_manager():
+        # whole path through the output manager down to the CSV file
+        for i in range(ctx.pick(12, 150)):
+            case = random_table(rng, float_factor(rng) if i % 2 else dyadic_factor(rng), boundary=(i % 3 == 0))
+            style = pick_style(rng, case)
+            try:
+                direct = W.impl_report(case, style)
+                viacsv = W.manager_report(case, style)
+            except Exception as e:
+                ctx.violate(f"C13:crash:manager:{type(e).__name__}", f"the output manager path raised {type(e).__name__}: {e}",
+                            {"case": [case[0], case[1], case[2], case[3], case[4], [list(r) for r in case[5]]],
+                             "origin": "manager_csv", "style": style})
+                continue
+            a = {k: [(w["start"], w["stop"], w["rate_num"], w["vol"]) for w in ws] for k, ws in direct.items()}
+            b = {k: [(w["start"], w["stop"], w["rate_num"], w["vol"]) for w in ws] for k, ws in viacsv.items()}
+            if a != b:
+                ctx.disagree("manager-csv", table_line(case), a, b)
+            oracle_table(ctx, case, viacsv, origin="manager_csv")
+            ctx.traces += 1
+            ctx.evaluations += 1
+
+    guarded("effects_audit", lambda: effects_audit(ctx))
+    guarded("corpus", st_corpus)
+    guarded("float_grid", st_grid)
+    guarded("scalar_crosscheck_and_dyadic_grid", st_cross)
+    guarded("random_doubles", st_random_doubles)
+    guarded("tables_exact", st_tables_exact)
+    guarded("tables_float", st_tables_float)
+    guarded("history", lambda: history_stage(ctx))
+    guarded("year_shift", lambda: year_shift_stage(ctx))
+    guarded("manager_csv", st_manager)
+    guarded("wholerun", lambda: wholerun_stage(ctx))
     ctx.assumptions.append("the period of the statement is [start date, end date): the last window ends ON the end "
                            "date as the property says, the last simulated day itself is in no window (known "
                            "finding F7c, C13_inclusive_counterexample)")
@@ -837,7 +1214,7 @@ def replay(ctx, data):
         print(" group", key)
         for w in ws:
             print("   survey %s rate %.4f  window [%s, %s)  volume %r" % (
-                W.day2date(w["date"]), w["rate_num"] / case[4], W.day2date(w["start"]), W.day2date(w["stop"]), w["vol"]))
+                W.day2date(w["date"]) if "date" in w else "?", w["rate_num"] / case[4], W.day2date(w["start"]), W.day2date(w["stop"]), w["vol"]))
     oracle_table(ctx, case, impl, origin="replay")
     for v in ctx.violations:
         print("oracle:", v["signature"], "-", v["what"], v["input"].get("group"), v["input"].get("windows", ""))
